@@ -97,15 +97,19 @@ Proof.
   rewrite str_slice_ok, Hb, Hr. destruct (Nat.leb_spec tb rs); [|lia]. cbn. eauto.
 Qed.
 
-(* the same loop with the char cursor computed absolutely, from the event's own byte start *)
+(* the same loop (guard of 8b26ba4 included) with the char cursor computed absolutely, from the event's own byte start *)
 Fixpoint md_loop_abs (lex : text -> list tok) (ilt : bool) (src : text) (bs : list N)
-         (evs : list (md_event * nat)) (stack : list md_tag) : res (list tok) :=
+         (evs : list (md_event * nat)) (cu : nat) (lastend : option nat) (stack : list md_tag) : res (list tok) :=
   match evs with
   | [] => Ok []
   | (ev, rs) :: rest =>
-      do '(out, stack) <- md_event_step lex ilt src bs rs stack (char_index bs rs) ev;
-      do r <- md_loop_abs lex ilt src bs rest stack;
-      Ok (out ++ r)
+      let tc := char_index bs rs in
+      let cu := md_cu_top cu lastend in
+      if md_is_leaf ev && (tc <? cu) then md_loop_abs lex ilt src bs rest cu lastend stack
+      else
+        do '(out, stack) <- md_event_step lex ilt src bs rs stack tc ev;
+        do r <- md_loop_abs lex ilt src bs rest cu (md_last_end out lastend) stack;
+        Ok (out ++ r)
   end.
 
 Fixpoint starts_from (lo : nat) (l : list nat) : Prop :=
@@ -113,47 +117,56 @@ Fixpoint starts_from (lo : nat) (l : list nat) : Prop :=
 
 (* the same loop with the char cursor computed absolutely from the running maximum of the range starts *)
 Fixpoint md_loop_max (lex : text -> list tok) (ilt : bool) (src : text) (bs : list N)
-         (evs : list (md_event * nat)) (tb : nat) (stack : list md_tag) : res (list tok) :=
+         (evs : list (md_event * nat)) (tb cu : nat) (lastend : option nat) (stack : list md_tag) : res (list tok) :=
   match evs with
   | [] => Ok []
   | (ev, rs) :: rest =>
       let tb' := Nat.max tb rs in
-      do '(out, stack) <- md_event_step lex ilt src bs rs stack (char_index bs tb') ev;
-      do r <- md_loop_max lex ilt src bs rest tb' stack;
-      Ok (out ++ r)
+      let tc := char_index bs tb' in
+      let cu := md_cu_top cu lastend in
+      if md_is_leaf ev && (tc <? cu) then md_loop_max lex ilt src bs rest tb' cu lastend stack
+      else
+        do '(out, stack) <- md_event_step lex ilt src bs rs stack tc ev;
+        do r <- md_loop_max lex ilt src bs rest tb' cu (md_last_end out lastend) stack;
+        Ok (out ++ r)
   end.
 
 (* C04_md_offsets (general form; End events carry the range of the whole element, so starts DO go
    backwards): when every range starts on a char boundary the bookkeeping never panics and each event
-   is handled at the true char offset of the furthest range start seen so far *)
-Theorem md_offsets_max lex ilt src bs : forall evs tb tc stack,
+   is handled — or skipped by the covered_until guard — at the true char offset of the furthest range
+   start seen so far *)
+Theorem md_offsets_max lex ilt src bs : forall evs tb tc cu lastend stack,
   tc = char_index bs tb -> is_boundary bs tb = true ->
   Forall (fun e => is_boundary bs (snd e) = true) evs ->
-  md_loop lex ilt src bs evs tb tc stack = md_loop_max lex ilt src bs evs tb stack.
+  md_loop lex ilt src bs evs tb tc cu lastend stack = md_loop_max lex ilt src bs evs tb cu lastend stack.
 Proof.
-  induction evs as [|[ev rs] rest IH]; intros tb tc stack Hc Hb Hbs; [reflexivity|].
+  induction evs as [|[ev rs] rest IH]; intros tb tc cu lastend stack Hc Hb Hbs; [reflexivity|].
   pose proof (Forall_inv Hbs) as Hrs. pose proof (Forall_inv_tail Hbs) as Hbs'. cbn [snd] in Hrs.
   cbn [md_loop md_loop_max]. destruct (md_advance_ok bs tb tc rs Hb Hrs) as [[tb' tc'] E]. rewrite E. cbn [bind].
   destruct (md_advance_spec _ _ _ _ _ _ Hc Hb E) as (H1 & H2 & H3). subst tb'. rewrite H2.
-  destruct (md_event_step lex ilt src bs rs stack (char_index bs (Nat.max tb rs)) ev) as [[out st]|]; cbn [bind]; [|reflexivity].
-  rewrite (IH (Nat.max tb rs) (char_index bs (Nat.max tb rs)) st eq_refl H3 Hbs'). reflexivity.
+  destruct (md_is_leaf ev && (char_index bs (Nat.max tb rs) <? md_cu_top cu lastend)).
+  - apply IH; [reflexivity|assumption|assumption].
+  - destruct (md_event_step lex ilt src bs rs stack (char_index bs (Nat.max tb rs)) ev) as [[out st]|]; cbn [bind]; [|reflexivity].
+    rewrite (IH (Nat.max tb rs) (char_index bs (Nat.max tb rs)) _ _ st eq_refl H3 Hbs'). reflexivity.
 Qed.
 
-(* C04_md_offsets: when the event ranges start on char boundaries in non-decreasing order (the
-   pulldown-cmark contract, monitored), the incremental bookkeeping never panics and every event is
-   handled with traversed_chars = the true char offset of its range start *)
-Theorem md_offsets lex ilt src bs : forall evs tb tc stack,
+(* C04_md_offsets: when the event ranges start on char boundaries in non-decreasing order, the incremental
+   bookkeeping never panics and every event is handled (or skipped by the guard) with traversed_chars = the
+   true char offset of its range start *)
+Theorem md_offsets lex ilt src bs : forall evs tb tc cu lastend stack,
   tc = char_index bs tb -> is_boundary bs tb = true ->
   starts_from tb (map snd evs) -> Forall (fun e => is_boundary bs (snd e) = true) evs ->
-  md_loop lex ilt src bs evs tb tc stack = md_loop_abs lex ilt src bs evs stack.
+  md_loop lex ilt src bs evs tb tc cu lastend stack = md_loop_abs lex ilt src bs evs cu lastend stack.
 Proof.
-  induction evs as [|[ev rs] rest IH]; intros tb tc stack Hc Hb Hs Hbs; [reflexivity|].
+  induction evs as [|[ev rs] rest IH]; intros tb tc cu lastend stack Hc Hb Hs Hbs; [reflexivity|].
   cbn [map snd starts_from] in Hs. destruct Hs as [Hle Hs]. pose proof (Forall_inv Hbs) as Hrs. pose proof (Forall_inv_tail Hbs) as Hbs'. cbn [snd] in Hrs.
   cbn [md_loop md_loop_abs]. destruct (md_advance_ok bs tb tc rs Hb Hrs) as [[tb' tc'] E]. rewrite E. cbn [bind].
   destruct (md_advance_spec _ _ _ _ _ _ Hc Hb E) as (H1 & H2 & H3).
   subst tb'. replace (Nat.max tb rs) with rs in * by lia. rewrite H2.
-  destruct (md_event_step lex ilt src bs rs stack (char_index bs rs) ev) as [[out st]|]; cbn [bind]; [|reflexivity].
-  rewrite (IH rs (char_index bs rs) st eq_refl H3 Hs Hbs'). reflexivity.
+  destruct (md_is_leaf ev && (char_index bs rs <? md_cu_top cu lastend)).
+  - apply IH; [reflexivity|assumption|assumption|assumption].
+  - destruct (md_event_step lex ilt src bs rs stack (char_index bs rs) ev) as [[out st]|]; cbn [bind]; [|reflexivity].
+    rewrite (IH rs (char_index bs rs) _ _ st eq_refl H3 Hs Hbs'). reflexivity.
 Qed.
 
 Theorem md_cursors_spec bs : forall starts tb tc,
@@ -225,7 +238,7 @@ Theorem md_code_unlintable lex ilt src bs rs stack tc ev out st :
   forall tk, In tk out -> tkind tk = K_UNLINTABLE.
 Proof.
   intros H Hev tk Hin. destruct ev; try contradiction; cbn [md_event_step] in H.
-  - inversion H; subst. destruct Hin as [<-|[]]. reflexivity.
+  - destruct (n =? 0); inversion H; subst; [destruct Hin|]. destruct Hin as [<-|[]]. reflexivity.
   - destruct (md_chunk_len bs rs re n) as [cl|]; cbn [bind] in H; [|discriminate].
     destruct (cl =? 0); [inversion H; subst; destruct Hin|].
     destruct stack as [|tag s']; [contradiction|]. destruct tag; try contradiction.
@@ -273,6 +286,99 @@ Theorem md_nonprose_tag_silent lex ilt src tag stack tc n out :
   md_text lex ilt src (tag :: stack) tc n = Ok out -> out = [].
 Proof.
   intros Hp H1 H2. unfold md_text. destruct tag; cbn in Hp; try discriminate; try congruence; intros H; now inversion H.
+Qed.
+
+(* ---- the covered_until guard (8b26ba4) and the empty Code / Math body (a37d1cc) ---- *)
+
+(* the two zero-width tokens of the unguarded arms: Start(List) and the breaking End events *)
+Definition md_structural (t : tok) : Prop :=
+  sstart (tspan t) = send (tspan t) /\ (tkind t = K_PARBREAK \/ tkind t = K_NEWLINE2).
+
+(* an empty Code / InlineMath / DisplayMath body pushes nothing (`$$$$`) *)
+Lemma md_empty_code_silent lex ilt src bs rs stack tc :
+  md_event_step lex ilt src bs rs stack tc (ECodeLike 0) = Ok ([], stack).
+Proof. reflexivity. Qed.
+
+(* what one handled event pushes starts at or after the cursor, or is one of the two zero-width tokens of an
+   unguarded arm *)
+Lemma md_event_step_from lex ilt src bs rs stack tc ev out st :
+  md_event_step lex ilt src bs rs stack tc ev = Ok (out, st) ->
+  (md_is_leaf ev = true -> Forall (fun t => tc <= sstart (tspan t)) out) /\
+  (md_is_leaf ev = false -> Forall md_structural out).
+Proof.
+  intros H. destruct ev; cbn [md_event_step md_is_leaf] in *; (split; intros Hl; try discriminate).
+  - destruct t; inversion H; subst; try apply Forall_nil.
+    constructor; [|constructor]. split; [cbn; lia|now right].
+  - inversion H; subst. constructor; [|constructor]. split; [cbn; lia|now left].
+  - inversion H; subst. constructor.
+  - inversion H; subst. constructor; [cbn; lia|constructor].
+  - inversion H; subst. constructor; [cbn; lia|constructor].
+  - destruct (n =? 0); inversion H; subst; [constructor|]. constructor; [cbn; lia|constructor].
+  - destruct (md_chunk_len bs rs re n) as [cl|]; cbn [bind] in H; [|discriminate].
+    destruct (cl =? 0); [inversion H; subst; constructor|].
+    destruct (md_text lex ilt src stack tc cl) as [o|] eqn:E; cbn [bind] in H; [|discriminate]. inversion H; subst o st.
+    destruct (md_text_lexed _ _ _ _ _ _ _ E) as [Hu | [-> | [_ ->] ] ].
+    + apply Forall_forall. intros t Ht. destruct (Hu t Ht) as [_ ->]. cbn. lia.
+    + constructor.
+    + apply Forall_forall. intros t Ht. apply in_map_iff in Ht as (t0 & <- & _). unfold tpush, push_by. cbn. lia.
+  - inversion H; subst. constructor; [cbn; lia|constructor].
+  - inversion H; subst. constructor.
+Qed.
+
+Lemma md_cu_top_mono cu lastend out : md_cu_top cu lastend <= md_cu_top (md_cu_top cu lastend) (md_last_end out lastend).
+Proof. generalize (md_cu_top cu lastend). intros c. unfold md_cu_top. destruct (md_last_end out lastend); lia. Qed.
+
+(* C04_md_guard: in the output of the loop from any state (cu, lastend) every token starts at or after
+   max(covered_until, end of the token pushed last) or is a zero-width ParagraphBreak / Newline(2) of an unguarded
+   Start(List) / End arm: an event that repeats source text already tokenised makes no second token over it.  The
+   statement holds from every intermediate state, i.e. for every suffix of the event list. *)
+Theorem md_guard_covered lex ilt src bs : forall evs tb cu lastend stack toks,
+  md_loop_max lex ilt src bs evs tb cu lastend stack = Ok toks ->
+  Forall (fun t => md_structural t \/ md_cu_top cu lastend <= sstart (tspan t)) toks.
+Proof.
+  induction evs as [|[ev rs] rest IH]; intros tb cu lastend stack toks H; cbn [md_loop_max] in H.
+  - inversion H. constructor.
+  - destruct (md_is_leaf ev && (char_index bs (Nat.max tb rs) <? md_cu_top cu lastend)) eqn:G.
+    + specialize (IH _ _ _ _ _ H). eapply Forall_impl; [|exact IH]. cbn beta. intros t [Ht|Ht]; [now left|right].
+      unfold md_cu_top in *. destruct lastend; lia.
+    + destruct (md_event_step lex ilt src bs rs stack (char_index bs (Nat.max tb rs)) ev) as [[out st]|] eqn:E; cbn [bind] in H; [|discriminate].
+      destruct (md_loop_max lex ilt src bs rest (Nat.max tb rs) (md_cu_top cu lastend) (md_last_end out lastend) st) as [r|] eqn:R; cbn [bind] in H; [|discriminate].
+      inversion H; subst toks. apply Forall_app. split.
+      * destruct (md_event_step_from _ _ _ _ _ _ _ _ _ _ E) as [Hleaf Hnl].
+        destruct (md_is_leaf ev) eqn:L.
+        -- cbn [andb] in G. apply Nat.ltb_ge in G. eapply Forall_impl; [|exact (Hleaf eq_refl)]. cbn beta. intros t Ht. right. lia.
+        -- eapply Forall_impl; [|exact (Hnl eq_refl)]. intros t Ht. now left.
+      * specialize (IH _ _ _ _ _ R). eapply Forall_impl; [|exact IH]. cbn beta. intros t [Ht|Ht]; [now left|right].
+        pose proof (md_cu_top_mono cu lastend out). lia.
+Qed.
+
+(* FC02c (found independently by C02 and by C04's contract monitor in phase 4; interaction of a37d1cc and 8b26ba4): totality of the Markdown loop — "no panic when every
+   range lies on char boundaries, Text ranges ordered" — is REFUTED.  pulldown-cmark replays the events behind `[[a|]]`;
+   the guard skips a replayed event only when the cursor is before covered_until.  An empty `$$$$` moves the cursor
+   (its range start) but pushes no token, so the replayed Text("river stone ") is handled at the cursor of `$$$$` and
+   `source[tc .. tc + chunk_len]` runs past the end of the file.  Witness: the event stream of `[[a|]]river stone $$$$`. *)
+Definition fc04j_src : text := [91;91;97;124;93;93;114;105;118;101;114;32;115;116;111;110;101;32;36;36;36;36]%N.
+Definition fc04j_evs : list (md_event * nat) :=
+  [(EStart TParagraph, 0); (EStart TLink, 0); (EText 1 5, 4); (EText 1 6, 5); (EText 12 18, 6); (ECodeLike 0, 18);
+   (EEndOther, 0); (EText 12 18, 6); (ECodeLike 0, 18); (EEndBreaking, 0)].
+Definition md_text_ranges_ok (bs : list N) (evs : list (md_event * nat)) : Prop :=
+  Forall (fun e => match fst e with
+                   | EText _ re => snd e <= re /\ is_boundary bs re = true
+                   | _ => True
+                   end) evs.
+
+Theorem md_loop_total_refuted :
+  exists (lex : text -> list tok) ilt src evs,
+    Forall valid_char src /\
+    Forall (fun e => is_boundary (encode src) (snd e) = true) evs /\
+    md_text_ranges_ok (encode src) evs /\
+    md_loop lex ilt src (encode src) evs 0 0 0 None [] = Panic PIndex.
+Proof.
+  exists (fun c => [mktok (mkspan 0 (length c)) 5%N]), false, fc04j_src, fc04j_evs.
+  split; [repeat constructor; unfold valid_char; lia|].
+  split; [repeat constructor|].
+  split; [unfold md_text_ranges_ok, fc04j_evs; repeat constructor; cbn; lia|].
+  vm_compute. reflexivity.
 Qed.
 
 (* ====================================================================================== *)
